@@ -2794,10 +2794,12 @@ func (db *DB) Export(ctx context.Context, dst io.Writer) (ltx.Pos, error) {
 		walFrameOffsets[k] = v
 	}
 
-	// Release write lock, if acquired.
-	gs.write.Unlock()
-
 	// Acquire the CKPT & READ locks to prevent checkpointing, in case this is in WAL mode.
+	//
+	// The write lock is kept until the read locks are held. If it is released
+	// first, a checkpoint followed by new commits can run in between and
+	// overwrite the WAL frames or database pages that were captured above, and
+	// the export would succeed with pages from a later position mixed in.
 	if err := gs.ckpt.RLock(ctx); err != nil {
 		return pos, fmt.Errorf("acquire CKPT read lock: %w", err)
 	}
@@ -2820,6 +2822,9 @@ func (db *DB) Export(ctx context.Context, dst io.Writer) (ltx.Pos, error) {
 		return pos, fmt.Errorf("acquire READ4 read lock: %w", err)
 	}
 
+	// Release write lock, if acquired.
+	gs.write.Unlock()
+
 	// Open database file.
 	dbFile, err := db.os.Open("EXPORT:DB", db.DatabasePath())
 	if err != nil {
@@ -2838,6 +2843,8 @@ func (db *DB) Export(ctx context.Context, dst io.Writer) (ltx.Pos, error) {
 
 	// Write page frames.
 	pageData := make([]byte, pageSize)
+	lockPgno := ltx.LockPgno(pageSize)
+	var chksum ltx.Checksum
 	for pgno := uint32(1); pgno <= pageN; pgno++ {
 		// Read from WAL if page exists in offset map. Otherwise read from DB.
 		if walFrameOffset, ok := walFrameOffsets[pgno]; ok {
@@ -2857,6 +2864,17 @@ func (db *DB) Export(ctx context.Context, dst io.Writer) (ltx.Pos, error) {
 		if _, err := dst.Write(pageData); err != nil {
 			return pos, fmt.Errorf("write page %d: %w", pgno, err)
 		}
+
+		if pgno != lockPgno {
+			chksum ^= ltx.ChecksumPage(pgno, pageData)
+		}
+	}
+
+	// Verify that the exported pages are the image of the position we report,
+	// like WriteSnapshotTo does. WAL frames captured above can be overwritten
+	// after a log restart, which the locks held here cannot prevent.
+	if postApplyChecksum := ltx.ChecksumFlag | chksum; pageN > 0 && postApplyChecksum != pos.PostApplyChecksum {
+		return pos, fmt.Errorf("export checksum mismatch at tx %s: %x <> %x", pos.TXID.String(), postApplyChecksum, pos.PostApplyChecksum)
 	}
 
 	return pos, nil
